@@ -639,14 +639,21 @@ enum Kind {
     DgramStream,
 }
 
+thread_local! {
+    static SMALL_WINDOW: std::cell::Cell<bool> = const { std::cell::Cell::new(false) };
+}
+
 fn quiet_planner(segment_ok: bool) -> Arc<dyn Fn(usize) -> ConnectPlan + Send + Sync> {
+    let window = if SMALL_WINDOW.with(|c| c.get()) { 32 * 1024 } else { 1 << 20 };
     Arc::new(move |_i| ConnectPlan {
         client_cfg: PipeCfg {
             segment: segment_ok && sim::chance("net.segment", 1, 3),
+            window,
             ..Default::default()
         },
         server_cfg: PipeCfg {
             segment: segment_ok && sim::chance("net.segment", 1, 3),
+            window,
             ..Default::default()
         },
         ..Default::default()
@@ -668,6 +675,17 @@ async fn run(prop: &'static str, _tier: Tier) {
     // message (fewer than 100 RRsets, so that the server's zone walk never
     // has to wait for its consumer).
     let bulky = sim::chance("cfg.bulky", 1, 10);
+    // One run in fifteen the primary's last change is a big one: 12-15
+    // RRsets of about 60 KiB, a response message apiece - more messages in
+    // one difference sequence than the server's response queue holds (10) -
+    // over links with small windows, so that a receiver who looks away makes
+    // the server wait.
+    let huge = if !bulky && sim::chance("cfg.huge_last_step", 1, 15) { 12 + sim::draw("cfg.huge_n", 4) as usize } else { 0 };
+    super::xfr::HUGE_LAST_STEP.with(|c| c.set(huge));
+    SMALL_WINDOW.with(|c| c.set(huge > 0));
+    if huge > 0 {
+        sim::stat("probe.difference_sequence_of_more_messages_than_the_response_queue_holds");
+    }
     let Primary { zone, contents, steps, .. } = match build_primary_with(if bulky { 70 + sim::draw("cfg.bulk_n", 15) as usize } else { 0 }).await {
         Some(p) => p,
         None => return,
@@ -1020,7 +1038,7 @@ async fn run(prop: &'static str, _tier: Tier) {
     // A caller may be slow to collect the messages of a transfer (it applies
     // them as it goes): once per transfer it may look away for six seconds.
     // (The timeout between two messages is then a long one.)
-    let slow_caller_at = if sim::chance("xfr.slow_caller", 1, 5) { Some(1 + sim::draw("xfr.slow_caller_at", 5) as usize) } else { None };
+    let slow_caller_at = if sim::chance("xfr.slow_caller", 1, 5) || (huge > 0 && sim::chance("xfr.slow_caller_huge", 2, 3)) { Some(1 + sim::draw("xfr.slow_caller_at", 5) as usize) } else { None };
     xst_cfg.set_streaming_response_timeout(Duration::from_millis(if slow_caller_at.is_some() { 19_000 } else { 3000 }));
     // A connection with a transfer in progress is not idle, however short
     // the idle timeout (0: close as soon as nothing is outstanding).
